@@ -22,6 +22,13 @@ pub struct RR(pub u8);
 #[derive(ReactResource, PartialEq, Debug, Default)]
 pub struct RS(pub u8);
 
+pub trait CompVal: ReactComponent + PartialEq { fn mk(v: u8) -> Self; fn v(&self) -> u8; }
+impl CompVal for A { fn mk(v: u8) -> Self { A(v) } fn v(&self) -> u8 { self.0 } }
+impl CompVal for B { fn mk(v: u8) -> Self { B(v) } fn v(&self) -> u8 { self.0 } }
+pub trait ResVal: ReactResource + PartialEq { fn mk(v: u8) -> Self; fn v(&self) -> u8; }
+impl ResVal for RR { fn mk(v: u8) -> Self { RR(v) } fn v(&self) -> u8 { self.0 } }
+impl ResVal for RS { fn mk(v: u8) -> Self { RS(v) } fn v(&self) -> u8 { self.0 } }
+
 pub struct X(pub u32);
 impl Drop for X { fn drop(&mut self) { log(Ev::Drop(self.0)); } }
 pub struct Y(pub u32);
@@ -812,7 +819,142 @@ pub fn exec_wop(world: &mut World, op: &WOp, u: u32)
         WOp::SpawnSysRc(k, key) => crate::sysfam::spawn_sys_rc(world, *k, *key),
         WOp::DropSysRc(k) => { let s = world.resource_mut::<H>().sys_sigs[*k as usize % 4].take(); drop(s); }
         WOp::InsertSys(k, s, key) => { let e = slot(world, *s); crate::sysfam::insert_sys(world, *k, e, *key); }
+        WOp::Acc(kind, s, c, v) =>
+        {
+            let e = slot(world, *s);
+            match c { C::A => exec_acc::<A>(world, *kind, e, *v, u), C::B => exec_acc::<B>(world, *kind, e, *v, u) }
+        }
+        WOp::ResAcc(kind, r, v) => match r { R::R => exec_res_acc::<RR>(world, *kind, *v, u), R::S => exec_res_acc::<RS>(world, *kind, *v, u) },
+        WOp::Move(from, to, c) =>
+        {
+            let (f, t) = (slot(world, *from), slot(world, *to));
+            match c { C::A => exec_move::<A>(world, f, t), C::B => exec_move::<B>(world, f, t) }
+        }
     }
+}
+
+//-------------------------------------------------------------------------------------------------------------------
+// Accessor surface (C14): every accessor is called from a one-shot system owning exactly the parameters it needs
+
+fn acc_q_get_mut<T: CompVal>(In((e, v)): In<(Entity, u8)>, mut c: Commands, mut q: Query<&mut React<T>>)
+{
+    if let Ok(mut r) = q.get_mut(e) { *r.get_mut(&mut c) = T::mk(v); }
+}
+fn acc_q_set_if_neq<T: CompVal>(In((e, v, u)): In<(Entity, u8, u32)>, mut c: Commands, mut q: Query<&mut React<T>>)
+{
+    let old = match q.get_mut(e) { Ok(mut r) => (*r).set_if_neq(&mut c, T::mk(v)).map(|x| x.v()), Err(_) => None };
+    log(Ev::SetRet { uid: u, old });
+}
+fn acc_q_noreact<T: CompVal>(In((e, v)): In<(Entity, u8)>, mut q: Query<&mut React<T>>)
+{
+    if let Ok(mut r) = q.get_mut(e) { *r.get_noreact() = T::mk(v); }
+}
+fn acc_q_read<T: CompVal>(In((e, u)): In<(Entity, u32)>, q: Query<&React<T>>)
+{
+    // through `get` and through `Deref`
+    let old = q.get(e).ok().map(|r| { let a = r.get().v(); let b = (**r).v(); if a == b { a } else { 255 } });
+    log(Ev::SetRet { uid: u, old });
+}
+fn acc_ro_read<T: CompVal>(In((e, u)): In<(Entity, u32)>, r: Reactive<T>)
+{
+    log(Ev::SetRet { uid: u, old: r.get(e).ok().map(|x| x.v()) });
+}
+fn acc_single_mut<T: CompVal>(In((v, u)): In<(u8, u32)>, mut c: Commands, mut r: ReactiveMut<T>)
+{
+    let (e, x) = r.single_mut(&mut c);
+    let old = x.v();
+    *x = T::mk(v);
+    log(Ev::Single { uid: u, e: e.to_bits(), old: Some(old) });
+}
+fn acc_single_noreact<T: CompVal>(In((v, u)): In<(u8, u32)>, mut r: ReactiveMut<T>)
+{
+    let (e, x) = r.single_noreact();
+    let old = x.v();
+    *x = T::mk(v);
+    log(Ev::Single { uid: u, e: e.to_bits(), old: Some(old) });
+}
+fn acc_single_set_if_neq<T: CompVal>(In((v, u)): In<(u8, u32)>, mut c: Commands, mut r: ReactiveMut<T>)
+{
+    let (e, old) = r.set_single_if_not_eq(&mut c, T::mk(v));
+    log(Ev::Single { uid: u, e: e.to_bits(), old: old.map(|x| x.v()) });
+}
+fn acc_single_read<T: CompVal>(In(u): In<u32>, r: ReactiveMut<T>)
+{
+    let (e, x) = r.single();
+    log(Ev::Single { uid: u, e: e.to_bits(), old: Some(x.v()) });
+}
+fn acc_ro_single<T: CompVal>(In(u): In<u32>, r: Reactive<T>)
+{
+    let (e, x) = r.single();
+    log(Ev::Single { uid: u, e: e.to_bits(), old: Some(x.v()) });
+}
+
+fn exec_acc<T: CompVal>(world: &mut World, kind: AccKind, e: Entity, v: u8, u: u32)
+{
+    let single = matches!(kind, AccKind::SingleMut | AccKind::SingleNoreact | AccKind::SingleSetIfNeq | AccKind::SingleRead | AccKind::RoSingle);
+    if single
+    {
+        // the `single*` accessors panic unless exactly one entity has the component (documented): only call them then
+        let n = world.query::<&React<T>>().iter(world).count();
+        log(Ev::Kept { uid: u, n: n.min(255) as u8 });
+        if n != 1 { return; }
+    }
+    match kind
+    {
+        AccKind::QGetMut => world.syscall((e, v), acc_q_get_mut::<T>),
+        AccKind::QSetIfNeq => world.syscall((e, v, u), acc_q_set_if_neq::<T>),
+        AccKind::QNoreact => world.syscall((e, v), acc_q_noreact::<T>),
+        AccKind::QRead => world.syscall((e, u), acc_q_read::<T>),
+        AccKind::RoRead => world.syscall((e, u), acc_ro_read::<T>),
+        AccKind::SingleMut => world.syscall((v, u), acc_single_mut::<T>),
+        AccKind::SingleNoreact => world.syscall((v, u), acc_single_noreact::<T>),
+        AccKind::SingleSetIfNeq => world.syscall((v, u), acc_single_set_if_neq::<T>),
+        AccKind::SingleRead => world.syscall(u, acc_single_read::<T>),
+        AccKind::RoSingle => world.syscall(u, acc_ro_single::<T>),
+    }
+}
+
+fn res_param_read<T: ResVal>(In(u): In<u32>, r: ReactRes<T>)
+{
+    log(Ev::SetRet { uid: u, old: Some(r.v()) });
+}
+
+fn exec_res_acc<T: ResVal + FromWorld>(world: &mut World, kind: ResAccKind, v: u8, u: u32)
+{
+    match kind
+    {
+        ResAccKind::WorldNoreact => { *world.react_resource_mut_noreact::<T>() = T::mk(v); }
+        ResAccKind::WorldGetNoreact => { if let Some(r) = world.get_react_resource_noreact::<T>() { *r = T::mk(v); } }
+        ResAccKind::WorldRead =>
+        {
+            let a = world.react_resource::<T>().v();
+            let b = world.get_react_resource::<T>().map(|r| r.v());
+            let c = world.contains_react_resource::<T>();
+            log(Ev::SetRet { uid: u, old: if b == Some(a) && c { Some(a) } else { Some(255) } });
+        }
+        ResAccKind::ParamRead => world.syscall(u, res_param_read::<T>),
+        ResAccKind::WorldInsert => world.insert_react_resource(T::mk(v)),
+        ResAccKind::CmdInsert => { world.commands().insert_react_resource(T::mk(v)); world.flush(); }
+        ResAccKind::Init =>
+        {
+            if v % 2 == 0 { world.init_react_resource::<T>(); }
+            else { world.commands().init_react_resource::<T>(); world.flush(); }
+        }
+        ResAccKind::GetOrInsertWith =>
+        {
+            let got = world.get_react_resource_or_insert_with(|| T::mk(v)).v();
+            log(Ev::SetRet { uid: u, old: Some(got) });
+        }
+    }
+}
+
+fn exec_move<T: CompVal>(world: &mut World, from: Entity, to: Entity)
+{
+    if from == to || world.get_entity(to).is_err() { return; }
+    let Ok(mut em) = world.get_entity_mut(from) else { return };
+    let Some(r) = em.take::<React<T>>() else { return };
+    let val = r.take();
+    world.react(|rc| rc.insert(to, val));
 }
 
 //-------------------------------------------------------------------------------------------------------------------
